@@ -26,9 +26,13 @@ func HarnessC02CallbackSequential() {
 				knownFinished = true
 			}
 		} else {
-			_, ok := s.Next()
+			ts, ok := s.Next()
 			if !ok {
 				knownFinished = true
+				// the wrapper hands on the finish time of the wrapped schedule, whoever saw the end first
+				vCheck("S4.callback.finish.time.passed.on", ts.Equal(time.Unix(100, 0)))
+			} else {
+				vCheck("S3.callback.token.time.passed.on", ts.Equal(time.Unix(100, 0)))
 			}
 		}
 		if knownFinished {
@@ -59,9 +63,11 @@ func HarnessC02CallbackConcurrent() {
 			defer wg.Done()
 			for i := 0; i < 2; i++ {
 				if (i+c)%2 == 0 {
-					if _, ok := s.Next(); !ok {
+					ts, ok := s.Next()
+					if !ok {
 						sawEnd[c] = true
 					}
+					vCheck("K4.callback.times.passed.on", ts.Equal(time.Unix(100, 0)))
 				} else if s.Left() == 0 {
 					sawEnd[c] = true
 				}
